@@ -96,6 +96,14 @@ def main():
         not_applicable=na,
     )
     json.dump(m, open(os.path.join(ROOT, "MANIFEST.json"), "w"), indent=1)
+    # plain-text rendering of known_findings.json (same content, one line per entry)
+    kf = json.load(open(os.path.join(ROOT, "known_findings.json")))
+    with open(os.path.join(ROOT, "known_findings.txt"), "w") as f:
+        for e in kf["entries"]:
+            if e["status"] == "fixed":
+                f.write(f"fixed: property={e['property']} {e.get('commit')} {e['signature']} -- {e['what']}\n")
+            else:
+                f.write(f"known: property={e['property']} {e['signature']} -- {e['what']} [not repaired: {e.get('why_not_fixed')}]\n")
 
 if __name__ == "__main__":
     main()
